@@ -6,6 +6,7 @@ import (
 
 	"github.com/formancehq/numscript/verifharness/fw"
 	"github.com/formancehq/numscript/verifharness/gen"
+	"github.com/formancehq/numscript/verifharness/real"
 )
 
 func main() {
@@ -42,6 +43,15 @@ func ledgerWorkload(c *fw.Ctx, strata []stratum, total int, mon func(e *exec, st
 		mon(e, st.name)
 		if e2, ok := rerunVaried(c, e); ok {
 			mon(e2, st.name)
+		}
+		if k%3 == 1 {
+			// the same case against the library's own StaticStore, which answers with every asset an
+			// account holds whatever was asked: the reference outcome is the same
+			e3 := *e
+			e3.out, e3.store = real.RunCase(e.parse.Result, cs, real.Static)
+			c.Eval()
+			c.Count("static_store_reruns", 1)
+			mon(&e3, st.name)
 		}
 		if c.WantSample() && (k%7 == 3) {
 			c.Sample(map[string]any{"case": id, "input": e.input(), "real_outcome": e.out.Summary(), "store_calls": len(e.out.Calls)})
